@@ -200,6 +200,51 @@ def _via_helper(prog, f, now, pred, node):
     return None
 
 
+def _steps(key):
+    """'unop_token(arg1.UnaryOperator.unop)' -> ['arg1', 'UnaryOperator', 'unop', 'unop_token()']"""
+    key = key.strip()
+    m = re.match(r"^([A-Za-z_][\w]*)\((.*)\)((?:\.[\w\[\]]+)*)$", key)
+    if m and key.count("(") == key.count(")"):
+        # make sure the parenthesis closing the name's call is the last one before the tail
+        depth = 0
+        end = None
+        for i, ch in enumerate(key):
+            if ch == "(":
+                depth += 1
+            elif ch == ")":
+                depth -= 1
+                if depth == 0:
+                    end = i
+                    break
+        name = key[:key.index("(")]
+        inner = key[key.index("(") + 1:end]
+        tail = key[end + 1:]
+        return _steps(inner) + [name + "()"] + [x for x in tail.split(".") if x]
+    return [x for x in key.split(".") if x]
+
+
+def _relaxed(steps, local_fns):
+    """drop steps that do not say *which node*: local helper calls, enum variants, tuple indices"""
+    out = []
+    for x in steps:
+        if x.endswith("()") and x[:-2] in local_fns:
+            continue
+        if x[:1].isupper() or x.isdigit() or x == "[]":
+            continue
+        out.append(x)
+    return out
+
+
+def _same_node(a, b, local_fns):
+    if a == b:
+        return True
+    ra, rb = _relaxed(_steps(a), local_fns), _relaxed(_steps(b), local_fns)
+    if not ra or not rb or ra[0] != rb[0]:
+        return False
+    n = min(len(ra), len(rb))
+    return n >= 2 and ra[:n] == rb[:n]
+
+
 def rule_guard(ctx, prop):
     rep = Report(prop, "R-GUARD", "every comment test that selected a comment-safe layout on the pinned tree still exists "
                                   "for the same node and still protects the one-line formatter calls it protected")
@@ -215,19 +260,48 @@ def rule_guard(ctx, prop):
         for (fn, pred, node), prot in now.items():
             by_fn.setdefault(fn, []).append((pred, node, prot))
         n = 0
+        local_fns = {g.path.split("::")[-1] for g in prog.fns("stylua_lib") if g.kind != "Closure"}
+        # group by (function, predicate): frozen node keys against the node keys found now
+        groups = {}
         for key, prot in ref.items():
             fn, pred, node = key.split(" | ")
+            groups.setdefault((fn, pred), []).append(node)
+        for (fn, pred), nodes in sorted(groups.items()):
             f = prog.fn("stylua_lib", fn)
             if f is None:
                 continue          # the function is gone (renamed / merged): not decided
-            n += 1
-            cur = now.get((fn, pred, node))
-            if cur is None:
-                cur = _via_helper(prog, f, now, pred, node)
-            ok = cur is not None
-            rep.inst(f"stylua_lib::{fn} {pred}({node})", {"use": prot}, cfg, ok=ok)
-            if cur is None:
+            cur = [nd for p_, nd, _ in by_fn.get(fn, []) if p_ == pred]
+            unmatched = list(cur)
+            pending = []
+            for node in nodes:
+                n += 1
+                if node in unmatched:
+                    unmatched.remove(node)
+                    rep.inst(f"stylua_lib::{fn} {pred}({node})", None, cfg, ok=True)
+                else:
+                    pending.append(node)
+            still = []
+            for node in pending:
+                hit = next((c for c in unmatched if _same_node(node, c, local_fns)), None)
+                if hit is None and _via_helper(prog, f, now, pred, node) is not None:
+                    rep.inst(f"stylua_lib::{fn} {pred}({node})", {"asked": "in a helper"}, cfg, ok=True)
+                    continue
+                if hit is not None:
+                    spec = lambda k: len([x for x in _steps(k) if not (x.endswith("()") and x[:-2] in local_fns)])
+                    if not (spec(hit) < spec(node)):
+                        unmatched.remove(hit)     # (a test on an enclosing node covers several frozen sub-node tests)
+                    rep.inst(f"stylua_lib::{fn} {pred}({node})", {"asked_as": hit}, cfg, ok=True)
+                else:
+                    still.append(node)
+            # an uninformative frozen key (`local`: the value came out of an or-pattern) is satisfied by any further test
+            for node in list(still):
+                if _steps(node)[:1] in (["local"], ["?"]) and len(_relaxed(_steps(node), local_fns)) <= 1 and unmatched:
+                    hit = unmatched.pop(0)
+                    still.remove(node)
+                    rep.inst(f"stylua_lib::{fn} {pred}({node})", {"asked_as": hit}, cfg, ok=True)
+            for node in still:
                 others = sorted(f"{p}({nd})" for p, nd, _ in by_fn.get(fn, []))
+                rep.inst(f"stylua_lib::{fn} {pred}({node})", None, cfg, ok=False)
                 rep.violation(f"stylua_lib::{fn} comment-guard-removed {pred}({node})",
                               f"{fn} no longer asks {pred} about `{node}` (remaining comment tests there: {others or 'none'}): "
                               f"the one-line layout that this test ruled out is now reachable with a comment in that "
